@@ -2,6 +2,7 @@
 from __future__ import annotations
 
 import ast
+import re
 
 from ..irschema import Schema
 from ..pyfacts import Func, Repo, call_name, dotted_name, walk_no_nested_funcs
@@ -456,9 +457,25 @@ def deptwin(repo, schema=None, sites=None):
                 tuple(sorted((t, tuple(f.name if f else None for f in fs)) for t, fs in s.incidental.items())),
                 tuple(sorted(s.params or [])))
 
-    base = sig(fr[0])
-    for s in fr[1:]:
-        if sig(s) != base:
+    # the second cycle search (after the later path components are resolved) uses an action that records *every*
+    # resolved component -- a superset of the edges; its traversal configuration (skips, incidental actions, parameters)
+    # must still be the twins'.  It is recognised by its body: a loop over `reference.path` adding each component.
+    def superset_action(s):
+        if s.action is None:
+            return False
+        src = ast.unparse(s.action.node)
+        return bool(re.search(r"for \w+ in reference\.path", src)) and "hashable_form_of_reference" in src and "|=" in src
+    base_sites = [s for s in fr if not superset_action(s)]
+    if len(base_sites) < 2:
+        raise AnalysisError("dependency_checker: fewer than two first-component FieldReference traversals")
+    base = sig(base_sites[0])
+    for s in fr:
+        if s is base_sites[0]:
+            continue
+        mine = sig(s)
+        if superset_action(s):
+            mine = (base[0],) + mine[1:]
+        if mine != base:
             res.add(f"deptwin|{s.func.qualname if s.func else ''}", "the FieldReference dependency traversal used for "
                     f"ordering differs from the one used for cycle detection: {sig(s)} vs {base}",
                     dc.rel, s.call.lineno, s.func.qualname if s.func else "")
